@@ -1067,7 +1067,7 @@ Definition process_item_r (cr up de : list H) (acc : pstate) (e : H * option des
 Definition tx_run (m : mdib) (t : tx) : pstate :=
   let cr := map fst (filter (is_create m) (t_d t)) in
   let up := map fst (filter (is_update m) (t_d t)) in
-  let de := map fst (filter (is_delete m) (t_d t)) in
+  let de := removed_handles m t in
   fold_left (process_item_r cr up de) (t_d t) (bump_ver m, t, [], ([], [], [])).
 
 (* TransactionResult.descr_updated / descr_created / descr_deleted of the committed transaction *)
@@ -1114,25 +1114,27 @@ Definition undel (m : mdib) (t : tx) (x : H) : Prop :=
   forall r, In (r, None) (t_d t) -> ~ reachR (descrs m) x r.
 
 Record dtx_ok (m : mdib) (t : tx) : Prop := {
-  (* shape: what the API calls of a descriptor transaction build (see descr_body_shape) *)
+  (* shape: what the API calls of a descriptor transaction build (see body_dshape) *)
   dx_c : t_c t = [];
   dx_nd : NoDup (map fst (t_d t));
   dx_ns : NoDup (map fst (t_s t));
   dx_st : forall h s, In (h, s) (t_s t) ->
             (exists d, In (h, Some d) (t_d t)) /\ (descrs m h <> None -> states m h <> None);
-  (* a deleted descriptor exists; its parent exists and is not deleted by the same transaction *)
-  dx_del : forall r, In (r, None) (t_d t) -> exists o, descrs m r = Some o /\
-             forall p, d_parent o = Some p -> descrs m p <> None /\ undel m t p;
-  (* an updated descriptor keeps parent and kind and is not deleted by the same transaction *)
+  dx_del : forall r, In (r, None) (t_d t) -> descrs m r <> None;
   dx_upd : forall h d o, In (h, Some d) (t_d t) -> descrs m h = Some o ->
-             d_parent d = d_parent o /\ d_kind d = d_kind o /\ undel m t h;
-  (* a descriptor is not created below a descriptor that the same transaction deletes *)
-  dx_crt : forall h d p, In (h, Some d) (t_d t) -> descrs m h = None -> d_parent d = Some p -> undel m t p
+             d_parent d = d_parent o /\ d_kind d = d_kind o;
+  (* the check process_transaction makes before it changes anything: nothing is created or updated inside a
+     subtree that the transaction removes *)
+  dx_nc : subtree_conflict m t = false;
+  (* residue: the parent handle of a removed descriptor is not a descriptor that this transaction creates
+     (it follows when every parent handle of the MDIB refers to an existing descriptor, see tree_ok) *)
+  dx_par : forall r o p, In (r, None) (t_d t) -> descrs m r = Some o -> d_parent o = Some p ->
+             memz p (map fst (filter (is_create m) (t_d t))) = false
 }.
 
 Definition cr_of (m : mdib) (t : tx) : list H := map fst (filter (is_create m) (t_d t)).
 Definition up_of (m : mdib) (t : tx) : list H := map fst (filter (is_update m) (t_d t)).
-Definition de_of (m : mdib) (t : tx) : list H := map fst (filter (is_delete m) (t_d t)).
+Definition de_of (m : mdib) (t : tx) : list H := removed_handles m t.
 
 Lemma cr_of_spec m t h : memz h (cr_of m t) = true <-> exists d, In (h, Some d) (t_d t) /\ descrs m h = None.
 Proof.
@@ -1150,13 +1152,22 @@ Proof.
   - intros (d & Hi & E). exists (h, Some d). split; [reflexivity|]. apply filter_In. split; [exact Hi|].
     unfold is_update. cbn [fst snd]. destruct (descrs m h); [reflexivity|contradiction].
 Qed.
-Lemma de_of_spec m t h : memz h (de_of m t) = true <-> In (h, None) (t_d t) /\ descrs m h <> None.
+Lemma de_of_spec m t y : (forall x, descrs m x <> None -> In x (ddom m)) ->
+  memz y (de_of m t) = true <->
+  descrs m y <> None /\ exists r, In (r, None) (t_d t) /\ descrs m r <> None /\ reachR (descrs m) y r.
 Proof.
-  rewrite memz_In. unfold de_of. rewrite in_map_iff. split.
-  - intros ([h' x] & <- & Hi). apply filter_In in Hi. destruct Hi as [Hi Hc]. unfold is_delete in Hc. cbn [fst snd] in *.
-    destruct x as [d|]; [discriminate|]. destruct (descrs m h') eqn:E; [|discriminate]. split; [exact Hi|discriminate].
-  - intros (Hi & E). exists (h, None). split; [reflexivity|]. apply filter_In. split; [exact Hi|].
-    unfold is_delete. cbn [fst snd]. destruct (descrs m h); [reflexivity|contradiction].
+  intros Hd. rewrite memz_In. unfold de_of, removed_handles. rewrite in_flat_map. split.
+  - intros ([r x] & Hi & Hy). unfold is_delete in Hy. cbn [fst snd] in Hy.
+    destruct x as [d|]; [contradiction|]. destruct (descrs m r) eqn:Er; [|contradiction].
+    apply (subtree_In m r y Hd) in Hy. destruct Hy as [Ey G]. split; [exact Ey|]. exists r. repeat split; [exact Hi|congruence|exact G].
+  - intros (Ey & r & Hi & Er & G). exists (r, None). split; [exact Hi|]. unfold is_delete. cbn [fst snd].
+    destruct (descrs m r); [|contradiction]. apply (subtree_In m r y Hd). now split.
+Qed.
+
+Lemma existsb_false {A} (f : A -> bool) l : existsb f l = false -> forall x, In x l -> f x = false.
+Proof.
+  intros E x Hx. destruct (f x) eqn:Ef; [|reflexivity].
+  assert (G : existsb f l = true) by (apply existsb_exists; now exists x). congruence.
 Qed.
 
 Lemma memz_app h l1 l2 : memz h (l1 ++ l2) = memz h l1 || memz h l2.
@@ -1172,6 +1183,31 @@ Qed.
 Lemma nodup_mid {A} (pre post : list (H * A)) e : NoDup (map fst (pre ++ e :: post)) -> ~ In (fst e) (map fst pre).
 Proof.
   rewrite map_app. cbn [map]. intros Hn Hi. apply NoDup_remove_2 in Hn. apply Hn. apply in_or_app. now left.
+Qed.
+
+(* every parent handle of the MDIB refers to an existing descriptor *)
+Definition tree_ok (m : mdib) : Prop :=
+  forall h d p, descrs m h = Some d -> d_parent d = Some p -> descrs m p <> None.
+
+(* no orphan is created: the parent of a created descriptor exists or is given by the same transaction *)
+Definition dpar_ok (m : mdib) (t : tx) : Prop :=
+  forall h d p, In (h, Some d) (t_d t) -> descrs m h = None -> d_parent d = Some p ->
+                descrs m p <> None \/ exists d', In (p, Some d') (t_d t).
+
+Lemma reach_transfer D D' r :
+  (forall x p, par D' x = Some p -> par D x = Some p \/ ~ reachR D p r) ->
+  forall y, reachR D' y r -> reachR D y r.
+Proof.
+  intros Hs y G. induction G as [|h p r E _ IH]; [constructor|].
+  destruct (Hs h p E) as [E'|Hn]; [eapply reach_step; [exact E'|exact (IH Hs)]|exfalso; exact (Hn (IH Hs))].
+Qed.
+
+Lemma reach_forward D D' (S : H -> Prop) r :
+  (forall h p, par D h = Some p -> ~ S h -> par D' h = Some p /\ ~ S p) ->
+  forall y, reachR D y r -> ~ S y -> reachR D' y r.
+Proof.
+  intros Hs y G. induction G as [|h p r E _ IH]; intros Hn; [constructor|].
+  destruct (Hs h p E Hn) as [E' Hp]. eapply reach_step; [exact E'|exact (IH Hp)].
 Qed.
 
 Section DescrCommit.
@@ -1343,12 +1379,40 @@ Section DescrCommit.
     eapply Permutation_NoDup; [apply Permutation_cons_append|]. now constructor.
   Qed.
 
-  Lemma root_not_nested r r' :
-    In (r, None) (t_d t) -> In (r', None) (t_d t) -> r <> r' -> ~ reachR (descrs m) r r'.
+  Lemma root_exists r : In (r, None) (t_d t) -> exists o, descrs m r = Some o.
+  Proof. intros Hr. pose proof (dx_del _ _ Ht r Hr) as E. destruct (descrs m r) as [o|]; [now exists o|contradiction]. Qed.
+
+  Lemma new_not_below r y : In (r, None) (t_d t) -> descrs m y = None -> ~ reachR (descrs m) y r.
   Proof.
-    intros Hr Hr' Hne G. inversion G as [|? p ? E G']; subst; [contradiction|].
-    destruct (dx_del _ _ Ht r Hr) as (o & Eo & Hp). unfold par in E. rewrite Eo in E.
-    destruct (Hp p E) as [_ Hu]. exact (Hu r' Hr' G').
+    intros Hr En G. inversion G as [|? p ? E G']; subst.
+    - destruct (root_exists r Hr) as (o & Eo). congruence.
+    - unfold par in E. rewrite En in E. discriminate.
+  Qed.
+
+  (* a handle that exists and is not removed by the transaction is not below anything it removes *)
+  Lemma kept_undel x : descrs m x <> None -> memz x de = false -> undel m t x.
+  Proof.
+    intros Ex En r Hr G. assert (E : memz x de = true).
+    { apply de_of_spec; [apply (pm_dd _ Hm)|]. split; [exact Ex|]. exists r. split; [exact Hr|]. split; [|exact G].
+      now apply (dx_del _ _ Ht). }
+    congruence.
+  Qed.
+
+  (* what the conflict check of process_transaction gives *)
+  Lemma nc_upd h d : In (h, Some d) (t_d t) -> descrs m h <> None -> undel m t h.
+  Proof.
+    intros Hin Ex. apply kept_undel; [exact Ex|].
+    pose proof (existsb_false _ _ (dx_nc _ _ Ht) (h, Some d) Hin) as E. cbn [fst snd] in E.
+    apply orb_false_elim in E. apply E.
+  Qed.
+
+  Lemma nc_par h d p : In (h, Some d) (t_d t) -> d_parent d = Some p -> undel m t p.
+  Proof.
+    intros Hin Ep. destruct (descrs m p) eqn:Ex.
+    - apply kept_undel; [congruence|].
+      pose proof (existsb_false _ _ (dx_nc _ _ Ht) (h, Some d) Hin) as E. cbn [fst snd] in E.
+      apply orb_false_elim in E. destruct E as [_ E]. now rewrite Ep in E.
+    - intros r Hr. now apply new_not_below.
   Qed.
 
   Section AtRoot.
@@ -1357,55 +1421,52 @@ Section DescrCommit.
     Hypothesis Hi : minv (alist_get (U ++ C)) (map fst D) mi.
     Hypothesis Hinc : incl pre (t_d t).
     Hypothesis Hr : In (r, None) (t_d t).
-    Hypothesis Hnr : ~ In r (map fst pre).
 
-    Lemma del_disjoint y : In y (map fst D) -> ~ reachR (descrs m) y r.
+    (* what has been removed so far is closed under "child of" *)
+    Lemma Dh_closed h p : par (descrs m) h = Some p -> In p (map fst D) -> In h (map fst D).
     Proof.
-      intros Hy G. apply (bi_D _ _ _ _ _ Hb) in Hy. destruct Hy as (_ & r' & Hr' & G').
-      assert (Hne : r <> r') by (intros ->; apply Hnr; now apply (in_map fst) in Hr').
-      destruct (reachR_linear _ _ _ _ G G') as [L|L].
-      - exact (root_not_nested r r' Hr (Hinc _ Hr') Hne L).
-      - exact (root_not_nested r' r (Hinc _ Hr') Hr (not_eq_sym Hne) L).
+      intros E Hp. apply (bi_D _ _ _ _ _ Hb) in Hp. destruct Hp as (Ep & r' & Hr' & G).
+      apply (bi_D _ _ _ _ _ Hb). split; [unfold par in E; destruct (descrs m h); discriminate|].
+      exists r'. split; [exact Hr'|]. eapply reach_step; eassumption.
     Qed.
 
-    Lemma root_exists : exists o, descrs m r = Some o.
-    Proof. destruct (dx_del _ _ Ht r Hr) as (o & Eo & _). now exists o. Qed.
-
-    Lemma new_not_below y : descrs m y = None -> ~ reachR (descrs m) y r.
+    Lemma mi_par_back x p : par (descrs mi) x = Some p -> par (descrs m) x = Some p \/ ~ reachR (descrs m) p r.
     Proof.
-      intros En G. inversion G as [|? p ? E G']; subst.
-      - destruct root_exists as (o & Eo). congruence.
-      - unfold par in E. rewrite En in E. discriminate.
+      unfold par at 1. rewrite (mi_d _ _ _ Hi). destruct (memz x (map fst D)); [discriminate|]. unfold ovl.
+      destruct (alist_get (U ++ C) x) as [d|] eqn:EL; [|intros E; now left].
+      apply alist_get_some_in in EL. apply in_app_or in EL. destruct EL as [HU|HC]; intros Ep.
+      - destruct (bi_U _ _ _ _ _ Hb _ _ HU) as ((o & Eo & Ep' & _) & _). left. unfold par. rewrite Eo. congruence.
+      - destruct (bi_C _ _ _ _ _ Hb _ _ HC) as [Hpre _]. right. exact (nc_par x d p (Hinc _ Hpre) Ep r Hr).
     Qed.
 
-    Lemma stable_prem x :
-      par (descrs mi) x = par (descrs m) x \/
-      (~ reachR (descrs m) x r /\ forall p, par (descrs mi) x = Some p -> ~ reachR (descrs m) p r).
+    Lemma mi_par_fwd h p : par (descrs m) h = Some p -> ~ In h (map fst D) ->
+      par (descrs mi) h = Some p /\ ~ In p (map fst D).
     Proof.
-      unfold par at 1 3. rewrite (mi_d _ _ _ Hi). destruct (memz x (map fst D)) eqn:Ex.
-      - right. split; [apply del_disjoint; now apply memz_In|]. intros p E. discriminate.
-      - unfold ovl. destruct (alist_get (U ++ C) x) as [d|] eqn:EL; [|now left].
-        apply alist_get_some_in in EL. apply in_app_or in EL. destruct EL as [HU|HC].
-        + destruct (bi_U _ _ _ _ _ Hb _ _ HU) as ((o & Eo & Ep & _) & _). left. unfold par. now rewrite Eo.
-        + destruct (bi_C _ _ _ _ _ Hb _ _ HC) as [Hpre En]. unfold par. rewrite En.
-          destruct (d_parent d) as [p|] eqn:Ep; [|now left]. right. split; [now apply new_not_below|].
-          intros p0 [= <-]. exact (dx_crt _ _ Ht x d p (Hinc _ Hpre) En Ep r Hr).
+      intros E Hn. split; [|intros Hp; apply Hn; eapply Dh_closed; eassumption].
+      unfold par. rewrite (mi_d _ _ _ Hi). apply memz_false in Hn. rewrite Hn. unfold ovl.
+      destruct (alist_get (U ++ C) h) as [d|] eqn:EL; [|exact E].
+      apply alist_get_some_in in EL. apply in_app_or in EL. destruct EL as [HU|HC].
+      - destruct (bi_U _ _ _ _ _ Hb _ _ HU) as ((o & Eo & Ep' & _) & _). unfold par in E. rewrite Eo in E. congruence.
+      - destruct (bi_C _ _ _ _ _ Hb _ _ HC) as [_ En]. unfold par in E. rewrite En in E. discriminate.
     Qed.
 
-    Lemma sub_exact y : In y (subtree mi r) <-> descrs m y <> None /\ reachR (descrs m) y r.
+    (* the subtree found at the time of the removal: what lies below r in the MDIB before the commit, minus what
+       went already with an earlier removal *)
+    Lemma sub_exact y :
+      In y (subtree mi r) <-> descrs m y <> None /\ reachR (descrs m) y r /\ ~ In y (map fst D).
     Proof.
-      rewrite subtree_In by (apply (mi_ddom _ _ _ Hi)).
-      pose proof (reachR_stable (descrs m) (descrs mi) r stable_prem) as S. split.
-      - intros [Ey G]. apply S in G. split; [|exact G].
-        rewrite (mi_d _ _ _ Hi) in Ey. destruct (memz y (map fst D)); [contradiction|]. unfold ovl in Ey.
+      rewrite subtree_In by (apply (mi_ddom _ _ _ Hi)). split.
+      - intros [Ey G]. apply (reach_transfer (descrs m) (descrs mi) r mi_par_back) in G.
+        rewrite (mi_d _ _ _ Hi) in Ey. destruct (memz y (map fst D)) eqn:Em; [contradiction|].
+        apply memz_false in Em. split; [|split; [exact G|exact Em]]. unfold ovl in Ey.
         destruct (alist_get (U ++ C) y) as [d|] eqn:EL; [|exact Ey].
         apply alist_get_some_in in EL. apply in_app_or in EL. destruct EL as [HU|HC].
         + destruct (bi_U _ _ _ _ _ Hb _ _ HU) as ((o & Eo & _) & _). rewrite Eo. discriminate.
-        + destruct (bi_C _ _ _ _ _ Hb _ _ HC) as [_ En]. exfalso. exact (new_not_below y En G).
-      - intros [Ey G]. split; [|apply S; exact G].
-        rewrite (mi_d _ _ _ Hi). destruct (memz y (map fst D)) eqn:Ex.
-        + exfalso. apply (del_disjoint y); [now apply memz_In|exact G].
-        + unfold ovl. destruct (alist_get (U ++ C) y); [discriminate|exact Ey].
+        + destruct (bi_C _ _ _ _ _ Hb _ _ HC) as [_ En]. exfalso. exact (new_not_below r y Hr En G).
+      - intros (Ey & G & Hn). split.
+        + rewrite (mi_d _ _ _ Hi). apply memz_false in Hn. rewrite Hn. unfold ovl.
+          destruct (alist_get (U ++ C) y); [discriminate|exact Ey].
+        + exact (reach_forward (descrs m) (descrs mi) (fun x => In x (map fst D)) r mi_par_fwd y G Hn).
     Qed.
   End AtRoot.
 
@@ -1463,6 +1524,10 @@ Section DescrCommit.
     destruct (descrs (fold_left rm_one (subtree mi h) mi) p) as [op|]; reflexivity.
   Qed.
 
+  Lemma pir_skip mi ti b U C D h : descrs mi h = None ->
+    process_item_r cr up de (mi, ti, b, (U, C, D)) (h, None) = (mi, ti, b, (U ++ [], C ++ [], D ++ [])).
+  Proof. intros E. unfold process_item_r, process_item, item_lists. cbn [fst snd]. rewrite E. reflexivity. Qed.
+
   (* ---------------------------------------------------------------- bookkeeping steps *)
   Lemma in_snoc {A} (l : list A) a x : In x (l ++ [a]) <-> In x l \/ x = a.
   Proof. rewrite in_app_iff. cbn. intuition. Qed.
@@ -1484,7 +1549,8 @@ Section DescrCommit.
     ~ In h (map fst (U ++ C)) -> binv (pre ++ [(h, Some d)]) (h :: b) (U ++ [(h, d)]) C D.
   Proof.
     intros [B1 B2 B3 B4 B5 B6 B7] Hin Eo Hk.
-    destruct (dx_upd _ _ Ht h d o Hin Eo) as (Ep & Ek & Hu). constructor.
+    destruct (dx_upd _ _ Ht h d o Hin Eo) as (Ep & Ek).
+    assert (Hu : undel m t h) by (apply (nc_upd h d Hin); congruence). constructor.
     - rewrite map_app. cbn [map fst]. rewrite rev_unit. now rewrite B1.
     - now apply nodup_ins_U.
     - intros h0 d0 Hi. apply in_snoc in Hi. destruct Hi as [Hi|[= -> ->]].
@@ -1519,7 +1585,7 @@ Section DescrCommit.
 
   Lemma binv_de pre b U C D h D' :
     binv pre b U C D ->
-    (forall y, In y (map fst D') <-> descrs m y <> None /\ reachR (descrs m) y h) ->
+    (forall y, In y (map fst D') <-> descrs m y <> None /\ reachR (descrs m) y h /\ ~ In y (map fst D)) ->
     binv (pre ++ [(h, None)]) b U C (D ++ D').
   Proof.
     intros [B1 B2 B3 B4 B5 B6 B7] HD. constructor; try assumption.
@@ -1528,13 +1594,23 @@ Section DescrCommit.
     - intros h0 d0 Hi. destruct (B4 _ _ Hi) as [X Y]. split; [apply in_snoc; now left|exact Y].
     - intros h0 d0 Hi Hn. apply in_snoc in Hi. destruct Hi as [Hi|Hi]; [now apply B5|discriminate].
     - intros h0 d0 Hi Hn. apply in_snoc in Hi. destruct Hi as [Hi|Hi]; [now apply B6|discriminate].
-    - intros y. rewrite map_app, in_app_iff, B7, HD. split.
-      + intros [(X & r & Hr & G)|(X & G)]; (split; [exact X|]).
-        * exists r. split; [apply in_snoc; now left|exact G].
-        * exists h. split; [apply in_snoc; now right|exact G].
+    - intros y. rewrite map_app, in_app_iff, HD. split.
+      + intros [Hy|(X & G & _)].
+        * apply B7 in Hy. destruct Hy as (X & r & Hr & G). split; [exact X|]. exists r. split; [apply in_snoc; now left|exact G].
+        * split; [exact X|]. exists h. split; [apply in_snoc; now right|exact G].
       + intros (X & r & Hr & G). apply in_snoc in Hr. destruct Hr as [Hr|[= ->]].
-        * left. split; [exact X|]. now exists r.
-        * right. now split.
+        * left. apply B7. split; [exact X|]. now exists r.
+        * destruct (memz y (map fst D)) eqn:Em; [left; now apply memz_In|right]. apply memz_false in Em. now repeat split.
+  Qed.
+
+  (* the entry of a descriptor that went already with an ancestor's subtree *)
+  Lemma binv_skip pre b U C D h :
+    binv pre b U C D -> In h (map fst D) -> binv (pre ++ [(h, None)]) b U C D.
+  Proof.
+    intros Hb Hh. replace D with (D ++ []) by apply app_nil_r. apply binv_de; [exact Hb|].
+    intros y. cbn [map]. split; [intros []|]. intros (X & G & Hn). apply Hn.
+    apply (bi_D _ _ _ _ _ Hb) in Hh. destruct Hh as (_ & r & Hr & G').
+    apply (bi_D _ _ _ _ _ Hb). split; [exact X|]. exists r. split; [exact Hr|]. eapply reachR_trans; eassumption.
   Qed.
 
   (* ---------------------------------------------------------------- the invariant of the commit loop *)
@@ -1562,17 +1638,13 @@ Section DescrCommit.
           * apply (Hu h Hin). constructor.
       - destruct (bi_C _ _ _ _ _ Hb _ _ Hk) as [Hpre _]. apply Hnp. now apply (in_map fst) in Hpre. }
     assert (HT : alist_get (U ++ C) h = None) by now apply alist_get_none.
-    assert (HD : memz h (map fst D) = false).
-    { apply memz_false. intros Hy. apply (bi_D _ _ _ _ _ Hb) in Hy. destruct Hy as (Ey & r & Hr & G).
-      assert (Hne : h <> r) by (intros ->; apply Hnp; now apply (in_map fst) in Hr).
-      destruct x as [d|].
-      - destruct (descrs m h) as [o|] eqn:Eo; [|contradiction].
-        destruct (dx_upd _ _ Ht h d o Hin Eo) as (_ & _ & Hu). exact (Hu r (Hinc _ Hr) G).
-      - exact (root_not_nested h r Hin (Hinc _ Hr) Hne G). }
-    assert (Edi : descrs mi h = descrs m h).
-    { rewrite (mi_d _ _ _ Hi), HD. unfold ovl. now rewrite HT. }
+    assert (HD : forall d, x = Some d -> memz h (map fst D) = false).
+    { intros d ->. apply memz_false. intros Hy. apply (bi_D _ _ _ _ _ Hb) in Hy. destruct Hy as (Ey & r & Hr & G).
+      exact (nc_upd h d Hin Ey r (Hinc _ Hr) G). }
+    assert (Edi : descrs mi h = if memz h (map fst D) then None else descrs m h).
+    { rewrite (mi_d _ _ _ Hi). unfold ovl. now rewrite HT. }
     destruct x as [d|].
-    - destruct (descrs m h) as [o|] eqn:Eo.
+    - specialize (HD d eq_refl). rewrite HD in Edi. destruct (descrs m h) as [o|] eqn:Eo.
       + (* update *)
         rewrite (pir_upd _ _ _ _ _ _ _ _ o) by congruence. rewrite !app_nil_r.
         split; [|split].
@@ -1593,7 +1665,7 @@ Section DescrCommit.
         destruct (d_parent d) as [p|] eqn:Ep; [|exact Plain].
         destruct (memz p cr || memz p up || memz p b) eqn:Esk; [exact Plain|].
         apply orb_false_elim in Esk. destruct Esk as [Esk Epb]. apply orb_false_elim in Esk. destruct Esk as [Epc Epu].
-        assert (Hup : undel m t p) by exact (dx_crt _ _ Ht h d p Hin Eo Ep).
+        assert (Hup : undel m t p) by exact (nc_par h d p Hin Ep).
         assert (Hph : p <> h).
         { intros ->. assert (memz h cr = true) by (apply cr_of_spec; exists d; now split). congruence. }
         assert (HpL : ~ In p (map fst (U ++ C))).
@@ -1628,11 +1700,15 @@ Section DescrCommit.
           eapply tinv_ucs; [exact Hm2|exact Hti|now apply alist_get_none|exact HpD].
         * apply binv_cr; [|exact Eo|exact HhL2]. now apply binv_bp.
     - (* delete *)
-      destruct (dx_del _ _ Ht h Hin) as (o & Eo & Hpar).
-      rewrite (pir_del _ _ _ _ _ _ _ o) by congruence. cbv zeta.
+      destruct (root_exists h Hin) as (o & Eo). rewrite Eo in Edi.
+      destruct (memz h (map fst D)) eqn:Eh.
+      { (* went already with an ancestor's subtree: skipped *)
+        rewrite pir_skip by exact Edi. rewrite !app_nil_r.
+        split; [exact Hi|]. split; [exact Hti|]. apply binv_skip; [exact Hb|now apply memz_In]. }
+      rewrite (pir_del _ _ _ _ _ _ _ o) by exact Edi. cbv zeta.
       set (l := subtree mi h). set (m1 := fold_left rm_one l mi).
-      assert (Hsub : forall y, In y l <-> descrs m y <> None /\ reachR (descrs m) y h).
-      { intros y. exact (sub_exact pre b U C D mi h Hb Hi Hinc Hin Hnp y). }
+      assert (Hsub : forall y, In y l <-> descrs m y <> None /\ reachR (descrs m) y h /\ ~ In y (map fst D)).
+      { intros y. exact (sub_exact pre b U C D mi h Hb Hi Hinc Hin y). }
       assert (Hkeys : map fst (descrs_of mi l) = l).
       { apply descrs_of_keys. intros x Hx. subst l. unfold subtree in Hx. apply filter_In in Hx.
         destruct Hx as [_ Hx]. destruct (descrs mi x); discriminate. }
@@ -1645,20 +1721,27 @@ Section DescrCommit.
       destruct (d_parent o) as [p|] eqn:Ep; [|exact Plain].
       destruct (memz p de || memz p up || memz p b) eqn:Esk; [exact Plain|].
       apply orb_false_elim in Esk. destruct Esk as [Esk Epb]. apply orb_false_elim in Esk. destruct Esk as [Epd Epu].
-      destruct (Hpar p eq_refl) as [Hpe Hup].
-      assert (Epc : memz p cr = false).
-      { destruct (memz p cr) eqn:E; [|reflexivity]. apply cr_of_spec in E. destruct E as (d0 & _ & En). contradiction. }
+      assert (Epc : memz p cr = false) by exact (dx_par _ _ Ht h o p Hin Eo Ep).
       assert (HpL : ~ In p (map fst (U ++ C))).
       { rewrite map_app. intros Hk. apply in_app_or in Hk. destruct Hk as [Hk|Hk].
         - apply memz_false in Epb. apply Epb. rewrite (bi_b _ _ _ _ _ Hb). now apply -> in_rev.
         - apply in_map_iff in Hk. destruct Hk as ([p0 d0] & E0 & Hk). cbn in E0. subst p0.
-          destruct (bi_C _ _ _ _ _ Hb _ _ Hk) as [_ En]. contradiction. }
+          destruct (bi_C _ _ _ _ _ Hb _ _ Hk) as [Hpre En].
+          assert (memz p cr = true) by (apply cr_of_spec; exists d0; split; [apply Hinc, Hpre|exact En]). congruence. }
+      assert (Ep0 : descrs (fold_left rm_one l mi) p = descrs m1 p) by reflexivity.
+      destruct (descrs m p) as [op|] eqn:Eop.
+      2:{ (* the parent handle refers to nothing *)
+        assert (E1 : descrs m1 p = None).
+        { rewrite (mi_d _ _ _ Hm1). destruct (memz p (map fst (D ++ descrs_of mi l))); [reflexivity|].
+          unfold ovl. apply alist_get_none in HpL. now rewrite HpL. }
+        rewrite E1. exact Plain. }
+      assert (Hup : undel m t p) by (apply kept_undel; [congruence|exact Epd]).
       assert (HpD : memz p (map fst (D ++ descrs_of mi l)) = false).
       { apply memz_false. intros Hy. apply (bi_D _ _ _ _ _ Hb1) in Hy. destruct Hy as (_ & r & Hr & G).
         apply in_snoc in Hr. destruct Hr as [Hr|[= ->]]; [exact (Hup r (Hinc _ Hr) G)|exact (Hup h Hin G)]. }
-      assert (Ep1 : descrs m1 p = descrs m p).
+      assert (Ep1 : descrs m1 p = Some op).
       { rewrite (mi_d _ _ _ Hm1), HpD. unfold ovl. apply alist_get_none in HpL. now rewrite HpL. }
-      rewrite Ep1. destruct (descrs m p) as [op|] eqn:Eop; [|exact Plain].
+      rewrite Ep1.
       rewrite !app_nil_r. split; [|split].
       + eapply minv_ext; [intros y; symmetry; apply get_ins_U; exact HpL|]. now apply minv_set.
       + eapply tinv_ext; [intros y; symmetry; apply get_ins_U; exact HpL|].
@@ -1980,8 +2063,8 @@ Section DescrCommit.
       apply alist_get_some_in in EL. apply in_app_or in EL. destruct EL as [HU|HC].
       - destruct (bi_U _ _ _ _ _ Hb _ _ HU) as ((o & Eo & Ep & _) & _). left. unfold par. now rewrite Eo.
       - destruct (bi_C _ _ _ _ _ Hb _ _ HC) as [Hpre En]. unfold par. rewrite En.
-        destruct (d_parent d) as [p|] eqn:Ep; [|now left]. right. split; [now apply (new_not_below r Hr)|].
-        intros p0 [= <-]. exact (dx_crt _ _ Ht x d p Hpre En Ep r Hr).
+        destruct (d_parent d) as [p|] eqn:Ep; [|now left]. right. split; [exact (new_not_below r x Hr En)|].
+        intros p0 [= <-]. exact (nc_par x d p Hpre Ep r Hr).
     Qed.
 
     Lemma DL_exists y : descrs m y <> None -> DL y <> None.
@@ -2019,7 +2102,7 @@ Section DescrCommit.
         destruct (alist_get (U ++ C) y) as [d|] eqn:EL; [|exact Ey].
         apply alist_get_some_in in EL. apply in_app_or in EL. destruct EL as [HU|HC].
         - destruct (bi_U _ _ _ _ _ Hb _ _ HU) as ((o & Eo & _) & _). rewrite Eo. discriminate.
-        - destruct (bi_C _ _ _ _ _ Hb _ _ HC) as [_ En]. exfalso. exact (new_not_below r Hr y En Gr). }
+        - destruct (bi_C _ _ _ _ _ Hb _ _ HC) as [_ En]. exfalso. exact (new_not_below r y Hr En Gr). }
       split.
       - split; [|split; [|split; [|split]]].
         + intros y. rewrite Fd, Id, memz_app. destruct (memz y R), (memz y (csubtree c' x)); reflexivity.
@@ -2186,6 +2269,30 @@ Section DescrCommit.
         destruct (d_kind d0 =? K_CTX); [|exact (Old Hc)]. injection Hc as <-. cbn [corr_cstate c_dh].
         unfold F_d. rewrite (L_not_deleted (c_dh cm)) by (eapply alist_get_key; exact EL). unfold ovl. rewrite EL. discriminate.
     Qed.
+
+    Lemma commit_tree_ok : tree_ok m -> dpar_ok m t -> tree_ok (handle_state_updates m1 t1).
+    Proof.
+      destruct commit_tables as (Td & _). cbv zeta in Td. intros Htr Hdp h d p Eh Ep. rewrite Td in *.
+      assert (Keep : forall q, descrs m q <> None -> ~ In q (map fst D) -> F_d q <> None).
+      { intros q Eq Hn. unfold F_d. apply memz_false in Hn. rewrite Hn. now apply DL_exists. }
+      assert (Up : forall o, descrs m h = Some o -> d_parent o = Some p -> ~ In h (map fst D) -> F_d p <> None).
+      { intros o Eo Epo Hn. apply Keep; [exact (Htr h o p Eo Epo)|].
+        intros Hp. apply Hn. apply (Dh_closed (t_d t) b U C D Hb h p); [unfold par; now rewrite Eo|exact Hp]. }
+      unfold F_d in Eh. destruct (memz h (map fst D)) eqn:Em; [discriminate|]. apply memz_false in Em. unfold ovl in Eh.
+      destruct (alist_get (U ++ C) h) as [d0|] eqn:EL.
+      - injection Eh as ->. apply alist_get_some_in in EL. apply in_app_or in EL. destruct EL as [HU|HC].
+        + destruct (bi_U _ _ _ _ _ Hb _ _ HU) as ((o & Eo & Epar & _) & _). apply (Up o Eo); [congruence|exact Em].
+        + destruct (bi_C _ _ _ _ _ Hb _ _ HC) as [Hpre En]. destruct (Hdp h d p Hpre En Ep) as [Ex|(d' & Hd')].
+          * apply Keep; [exact Ex|]. intros Hp. apply (bi_D _ _ _ _ _ Hb) in Hp. destruct Hp as (_ & r & Hr & G).
+            exact (nc_par h d p Hpre Ep r Hr G).
+          * assert (HL : In (p, d') (U ++ C)).
+            { apply in_or_app. destruct (descrs m p) eqn:Ex.
+              - left. apply (bi_Uc _ _ _ _ _ Hb); [exact Hd'|congruence].
+              - right. now apply (bi_Cc _ _ _ _ _ Hb). }
+            unfold F_d. rewrite (L_not_deleted p) by (apply (in_map fst) in HL; exact HL).
+            unfold ovl. rewrite (L_get p d' HL). discriminate.
+      - apply (Up d Eh Ep Em).
+    Qed.
   End Final.
 
   (* ================================================================ C01: mirror step for a descriptor transaction *)
@@ -2212,6 +2319,13 @@ Section DescrCommit.
     - now rewrite Cv, Tv.
     - exact Cm.
   Qed.
+
+  Theorem commit_descr_tree_ok : t_d t <> [] -> tree_ok m -> dpar_ok m t -> tree_ok (commit_descr m t).
+  Proof.
+    intros Hne Htr Hdp. rewrite (commit_descr_run m t Hne).
+    pose proof tx_run_inv as Hrun. destruct (tx_run m t) as [[[m1 t1] b] [[U C] D]]. cbn [fst snd].
+    exact (commit_tree_ok m1 t1 b U C D Hrun Htr Hdp).
+  Qed.
 End DescrCommit.
 
 (* ================================================================ the well-formedness predicate, piecewise *)
@@ -2227,31 +2341,24 @@ Record dshape (m : mdib) (t : tx) : Prop := {
              d_parent d = d_parent o /\ d_kind d = d_kind o
 }.
 
-(* what the application has to respect: deletions are kept apart from everything else the transaction does *)
-Record dsep (m : mdib) (t : tx) : Prop := {
-  sp_del : forall r o p, In (r, None) (t_d t) -> descrs m r = Some o -> d_parent o = Some p ->
-             descrs m p <> None /\ undel m t p;
-  sp_upd : forall h d, In (h, Some d) (t_d t) -> descrs m h <> None -> undel m t h;
-  sp_crt : forall h d p, In (h, Some d) (t_d t) -> descrs m h = None -> d_parent d = Some p -> undel m t p
-}.
+(* the one thing neither the API calls nor the conflict check of process_transaction guarantee: the parent handle
+   of a removed descriptor must not be a descriptor that the same transaction creates.  It holds whenever every
+   parent handle of the MDIB refers to an existing descriptor: *)
+Definition dpar_res (m : mdib) (t : tx) : Prop :=
+  forall r o p, In (r, None) (t_d t) -> descrs m r = Some o -> d_parent o = Some p ->
+                memz p (map fst (filter (is_create m) (t_d t))) = false.
 
-Lemma dtx_ok_intro m t : dshape m t -> dsep m t -> dtx_ok m t.
+Lemma tree_dpar_res m t : tree_ok m -> dpar_res m t.
 Proof.
-  intros [A B C D E F] [G I J]. constructor; try assumption.
-  - intros r Hr. destruct (descrs m r) as [o|] eqn:Eo; [|now apply E in Hr]. exists o. split; [reflexivity|].
-    intros p Ep. exact (G r o p Hr Eo Ep).
-  - intros h d o Hi Eo. destruct (F h d o Hi Eo) as [X Y]. split; [exact X|]. split; [exact Y|].
-    apply (I h d Hi). congruence.
+  intros Htr r o p Hr Eo Ep. destruct (memz p (map fst (filter (is_create m) (t_d t)))) eqn:E; [|reflexivity].
+  apply (cr_of_spec m t p) in E. destruct E as (d & _ & En). exfalso. exact (Htr r o p Eo Ep En).
 Qed.
 
-Lemma dtx_ok_elim m t : dtx_ok m t -> dshape m t /\ dsep m t.
-Proof.
-  intros [A B C D E F G]. split; constructor; try assumption.
-  - intros r Hr. destruct (E r Hr) as (o & Eo & _). congruence.
-  - intros h d o Hi Eo. destruct (F h d o Hi Eo) as (X & Y & _). now split.
-  - intros r o p Hr Eo Ep. destruct (E r Hr) as (o' & Eo' & Hp). rewrite Eo in Eo'. injection Eo' as <-. now apply Hp.
-  - intros h d Hi Hn. destruct (descrs m h) as [o|] eqn:Eo; [|contradiction]. now destruct (F h d o Hi Eo) as (_ & _ & Z).
-Qed.
+Lemma dtx_ok_intro m t : dshape m t -> subtree_conflict m t = false -> dpar_res m t -> dtx_ok m t.
+Proof. intros [A B C D E F] G I. constructor; assumption. Qed.
+
+Lemma dtx_ok_elim m t : dtx_ok m t -> dshape m t /\ subtree_conflict m t = false /\ dpar_res m t.
+Proof. intros [A B C D E F G I]. split; [constructor; assumption|split; assumption]. Qed.
 
 (* --- the shape is what descriptor-transaction bodies build --- *)
 Definition descr_action (a : action) : Prop :=
@@ -2332,15 +2439,6 @@ Proof.
   constructor; [|now apply IH]. apply memz_false. now apply negb_true_iff in E1.
 Qed.
 
-Definition undelb (m : mdib) (t : tx) (x : H) : bool :=
-  forallb (fun e => match snd e with None => negb (reaches m (length (ddom m)) x (fst e)) | Some _ => true end) (t_d t).
-
-Lemma undelb_sound m t x : (forall y, descrs m y <> None -> In y (ddom m)) -> undelb m t x = true -> undel m t x.
-Proof.
-  intros Hd Hb r Hr G. unfold undelb in Hb. rewrite forallb_forall in Hb. specialize (Hb (r, None) Hr). cbn [fst snd] in Hb.
-  rewrite reaches_greach, (greach_complete _ _ _ _ Hd G) in Hb. discriminate.
-Qed.
-
 Definition opt_h_eqb (a b : option H) : bool :=
   match a, b with Some x, Some y => Z.eqb x y | None, None => true | _, _ => false end.
 
@@ -2350,17 +2448,18 @@ Definition dtx_okb (m : mdib) (t : tx) : bool :=
                     (match descrs m (fst e), states m (fst e) with Some _, None => false | _, _ => true end)) (t_s t) &&
   forallb (fun e => match snd e, descrs m (fst e) with
                     | None, Some o => match d_parent o with
-                                      | Some p => (match descrs m p with Some _ => true | None => false end) && undelb m t p
+                                      | Some p => negb (memz p (map fst (filter (is_create m) (t_d t))))
                                       | None => true end
                     | None, None => false
-                    | Some d, Some o => opt_h_eqb (d_parent d) (d_parent o) && Z.eqb (d_kind d) (d_kind o) && undelb m t (fst e)
-                    | Some d, None => match d_parent d with Some p => undelb m t p | None => true end
-                    end) (t_d t).
+                    | Some d, Some o => opt_h_eqb (d_parent d) (d_parent o) && Z.eqb (d_kind d) (d_kind o)
+                    | Some d, None => true
+                    end) (t_d t) &&
+  negb (subtree_conflict m t).
 
-Lemma dtx_okb_sound m t : (forall y, descrs m y <> None -> In y (ddom m)) -> dtx_okb m t = true -> dtx_ok m t.
+Lemma dtx_okb_sound m t : dtx_okb m t = true -> dtx_ok m t.
 Proof.
-  intros Hd E. unfold dtx_okb in E.
-  apply andb_prop in E. destruct E as [E E5]. apply andb_prop in E. destruct E as [E E4].
+  intros E. unfold dtx_okb in E.
+  apply andb_prop in E. destruct E as [E E6]. apply andb_prop in E. destruct E as [E E5]. apply andb_prop in E. destruct E as [E E4].
   apply andb_prop in E. destruct E as [E E3]. apply andb_prop in E. destruct E as [E1 E2].
   rewrite forallb_forall in E4, E5.
   constructor.
@@ -2370,14 +2469,12 @@ Proof.
   - intros h s Hi. specialize (E4 _ Hi). cbn [fst] in E4. apply andb_prop in E4. destruct E4 as [X Y]. split.
     + destruct (alist_get (t_d t) h) as [[d|]|] eqn:G; try discriminate. exists d. now apply alist_get_some_in.
     + intros Hn. destruct (descrs m h); [|contradiction]. destruct (states m h); [discriminate|discriminate].
-  - intros r Hr. specialize (E5 _ Hr). cbn [fst snd] in E5. destruct (descrs m r) as [o|]; [|discriminate].
-    exists o. split; [reflexivity|]. intros p Ep. rewrite Ep in E5. apply andb_prop in E5. destruct E5 as [X Y].
-    split; [destruct (descrs m p); [discriminate|discriminate]|now apply undelb_sound].
+  - intros r Hr. specialize (E5 _ Hr). cbn [fst snd] in E5. destruct (descrs m r) as [o|]; [discriminate|discriminate].
   - intros h d o Hi Eo. specialize (E5 _ Hi). cbn [fst snd] in E5. rewrite Eo in E5.
-    apply andb_prop in E5. destruct E5 as [E5 Z]. apply andb_prop in E5. destruct E5 as [X Y].
-    split; [|split; [now apply Z.eqb_eq|now apply undelb_sound]].
+    apply andb_prop in E5. destruct E5 as [X Y]. split; [|now apply Z.eqb_eq].
     unfold opt_h_eqb in X. destruct (d_parent d), (d_parent o); try discriminate; [apply Z.eqb_eq in X; now subst|reflexivity].
-  - intros h d p Hi En Ep. specialize (E5 _ Hi). cbn [fst snd] in E5. rewrite En, Ep in E5. now apply undelb_sound.
+  - now apply negb_true_iff in E6.
+  - intros r o p Hr Eo Ep. specialize (E5 _ Hr). cbn [fst snd] in E5. rewrite Eo, Ep in E5. now apply negb_true_iff in E5.
 Qed.
 
 (* a provider MDIB given by association lists is well-formed when the lists are *)
@@ -2610,6 +2707,8 @@ Definition pc_step3 (seq inst : Z) (mc : mdib * cmdib) (x : txn) : mdib * cmdib 
   match ab, body k m empty_tx acts with
   | None, Ok t =>
       if Z.eqb k 6 then
+        if subtree_conflict m t then (m, c)      (* ApiUsageError: nothing changes, nothing is sent *)
+        else
         match t_d t with
         | [] => (m, c)
         | _ => (commit_descr m t, receive_all c (descr_reports m t seq inst))
@@ -2630,12 +2729,13 @@ Definition pc_step3 (seq inst : Z) (mc : mdib * cmdib) (x : txn) : mdib * cmdib 
 
 (* admissible transactions, relative to the MDIB they are applied to: state transactions of any kind; context
    transactions that report everything they do (no deletion through the entity interface - the known finding);
-   descriptor transactions that keep their deletions apart (dsep) *)
+   descriptor transactions of any add / update / remove / get_state calls that create no orphan (dpar_ok) - a
+   transaction that process_transaction refuses (subtree_conflict) is covered: nothing changes, nothing is sent *)
 Definition txn_ok (m : mdib) (x : txn) : Prop :=
   let '(k, ab, acts) := x in
   (0 <= k < 5 /\ state_only acts) \/
   (k = 5 /\ ctx_only acts /\ fresh_ok m acts /\ forall t, body 5 m empty_tx acts = Ok t -> no_deletion t) \/
-  (k = 6 /\ descr_only acts /\ forall t, body 6 m empty_tx acts = Ok t -> dsep m t).
+  (k = 6 /\ descr_only acts /\ forall t, body 6 m empty_tx acts = Ok t -> dpar_ok m t).
 
 Fixpoint hist_ok (m : mdib) (hist : list txn) : Prop :=
   match hist with
@@ -2644,21 +2744,21 @@ Fixpoint hist_ok (m : mdib) (hist : list txn) : Prop :=
   end.
 
 Definition sys_ok (seq inst : Z) (m : mdib) (c : cmdib) : Prop :=
-  mirrors c m /\ cdom_ok c /\ pm_ok m /\ cm_seq c = seq /\ cm_inst c = inst.
+  mirrors c m /\ cdom_ok c /\ pm_ok m /\ tree_ok m /\ cm_seq c = seq /\ cm_inst c = inst.
 
 Lemma pc_step3_ok seq inst m c x : txn_ok m x -> sys_ok seq inst m c ->
   fst (pc_step3 seq inst (m, c) x) = exec1 m x /\
   sys_ok seq inst (fst (pc_step3 seq inst (m, c) x)) (snd (pc_step3 seq inst (m, c) x)).
 Proof.
-  intros Hx (Hmir & Hcd & Hpm & Hs & Hi). destruct x as [[k ab] acts]. unfold pc_step3, exec1.
-  assert (Same : sys_ok seq inst m c) by exact (conj Hmir (conj Hcd (conj Hpm (conj Hs Hi)))).
+  intros Hx (Hmir & Hcd & Hpm & Htr & Hs & Hi). destruct x as [[k ab] acts]. unfold pc_step3, exec1.
+  assert (Same : sys_ok seq inst m c) by exact (conj Hmir (conj Hcd (conj Hpm (conj Htr (conj Hs Hi))))).
   destruct ab as [n|].
   { cbn [fst snd]. split; [symmetry; apply abort_never_commits|exact Same]. }
   unfold transaction. destruct (body k m empty_tx acts) as [t|e] eqn:B; [|cbn [fst snd]; split; [now destruct e|exact Same]].
-  cbn [fst]. destruct Hx as [[Hk Ho]|[(-> & Ho & Hf & Hnd)|(-> & Ho & Hsep)]].
+  destruct Hx as [[Hk Ho]|[(-> & Ho & Hf & Hnd)|(-> & Ho & Hdp)]].
   - (* state transaction *)
     assert (Hok : stx_ok k m t) by (eapply body_state_ok; try eassumption; apply empty_stx_ok).
-    replace (k =? 6) with false by lia. replace (k =? 5) with false by lia.
+    replace (k =? 6) with false by lia. replace (k =? 5) with false by lia. cbn [fst].
     destruct (t_s t) as [|i0 l0] eqn:Et.
     + cbn [fst snd]. split; [symmetry; apply commit_states_empty; [exact Et|apply (sx_c _ _ _ Hok)]|exact Same].
     + cbn [fst snd]. split; [reflexivity|].
@@ -2666,10 +2766,11 @@ Proof.
       destruct (mirror_step_state_tx k m t c Hok Hne Hmir) as [Mi _]. cbv zeta in Mi. subst seq inst.
       destruct (receive_seq_inst c (state_report (commit_states m t) (cm_seq c) (cm_inst c) t)) as [Rs Ri].
       split; [exact Mi|]. split; [now apply receive_cdom_ok|]. split; [eapply commit_states_pm_ok_state; eassumption|].
-      now split.
+      split; [|now split].
+      destruct (commit_states_pointwise k m t Hok) as (_ & Dd & _). unfold tree_ok. rewrite Dd. exact Htr.
   - (* context transaction *)
     assert (Hok : ctx_ok m t) by (eapply body_ctx_ok; try eassumption; apply empty_ctx_ok).
-    change (5 =? 6) with false. change (5 =? 5) with true. cbv iota.
+    change (5 =? 6) with false. change (5 =? 5) with true. cbv iota. cbn [fst].
     destruct (t_c t) as [|i0 l0] eqn:Et.
     + cbn [fst snd]. split; [symmetry; apply commit_states_empty; [apply (cx_s _ _ Hok)|exact Et]|exact Same].
     + cbn [fst snd]. split; [reflexivity|].
@@ -2677,18 +2778,22 @@ Proof.
       destruct (mirror_step_ctx_tx m t c Hok (Hnd t B) Hne Hmir) as [Mi _]. cbv zeta in Mi. subst seq inst.
       match goal with |- context [receive c ?r] => destruct (receive_seq_inst c r) as [Rs Ri] end.
       split; [exact Mi|]. split; [now apply receive_cdom_ok|]. split; [now apply commit_states_pm_ok_ctx|].
-      now split.
+      split; [|now split].
+      destruct (commit_ctx_pointwise m t Hok) as (Dd & _). unfold tree_ok. rewrite Dd. exact Htr.
   - (* descriptor transaction *)
     change (6 =? 6) with true. cbv iota.
+    destruct (subtree_conflict m t) eqn:Ec; [cbn [fst snd]; split; [reflexivity|exact Same]|].
+    cbn [fst].
     destruct (t_d t) as [|i0 l0] eqn:Et.
     + cbn [fst snd]. split; [symmetry; now apply commit_descr_empty|exact Same].
     + cbn [fst snd]. split; [reflexivity|].
       assert (Hne : t_d t <> []) by (rewrite Et; discriminate).
       assert (Hok : dtx_ok m t).
-      { apply dtx_ok_intro; [|exact (Hsep t B)]. eapply body_dshape; [exact Ho|apply empty_dshape|exact B]. }
+      { apply dtx_ok_intro; [|exact Ec|now apply tree_dpar_res]. eapply body_dshape; [exact Ho|apply empty_dshape|exact B]. }
       subst seq inst.
       destruct (mirror_step_descr_all m t c Hpm Hok Hne Hmir Hcd) as (A1 & A2 & A3 & A4 & A5). cbv zeta in *.
-      split; [exact A1|]. split; [exact A2|]. split; [exact A5|]. now split.
+      split; [exact A1|]. split; [exact A2|]. split; [exact A5|].
+      split; [exact (commit_descr_tree_ok m t Hpm Hok Hne Htr (Hdp t B))|now split].
 Qed.
 
 Theorem mirror_history3 seq inst hist : forall m c,
@@ -2735,7 +2840,26 @@ Proof.
 Qed.
 
 Theorem descr_body_wellformed m acts t :
-  descr_only acts -> body 6 m empty_tx acts = Ok t -> dsep m t -> dtx_ok m t.
+  descr_only acts -> body 6 m empty_tx acts = Ok t -> subtree_conflict m t = false -> tree_ok m -> dtx_ok m t.
 Proof.
-  intros Ho B Hs. apply dtx_ok_intro; [|exact Hs]. eapply body_dshape; [exact Ho|apply empty_dshape|exact B].
+  intros Ho B Hc Htr. apply dtx_ok_intro; [|exact Hc|now apply tree_dpar_res].
+  eapply body_dshape; [exact Ho|apply empty_dshape|exact B].
+Qed.
+
+Definition dpar_okb (m : mdib) (t : tx) : bool :=
+  forallb (fun e => match snd e, descrs m (fst e) with
+                    | Some d, None => match d_parent d with
+                                      | Some p => (match descrs m p with Some _ => true | None => false end) ||
+                                                  (match alist_get (t_d t) p with Some (Some _) => true | _ => false end)
+                                      | None => true
+                                      end
+                    | _, _ => true
+                    end) (t_d t).
+
+Lemma dpar_okb_sound m t : dpar_okb m t = true -> dpar_ok m t.
+Proof.
+  unfold dpar_okb. rewrite forallb_forall. intros E h d p Hin En Ep. specialize (E _ Hin). cbn [fst snd] in E.
+  rewrite En, Ep in E. apply orb_prop in E. destruct E as [E|E].
+  - left. destruct (descrs m p); [discriminate|discriminate].
+  - right. destruct (alist_get (t_d t) p) as [[d'|]|] eqn:G; try discriminate. exists d'. now apply alist_get_some_in.
 Qed.
